@@ -70,11 +70,30 @@ pub fn cmd_parse(args: &[String]) -> i32 {
             .as_array()
             .map(|a| a.iter().map(|x| x.as_u64().unwrap_or(0) as u16).collect())
             .unwrap_or_default();
+        let full = j["full"].as_bool().unwrap_or(false);
         match kanata_parser::cfg::new_from_str(text, Default::default()) {
             Ok(cfg) => {
+                // "full": the probed coordinates are the intercepted keys themselves (when there are
+                // few), and every layer, the override table, the defseq trie and the chords-v2 table
+                // are reported too (key names observed in further configuration positions)
+                let mut probe = probe;
+                if full && cfg.mapped_keys.len() <= 8 {
+                    probe = cfg.mapped_keys.iter().map(|o| o.as_u16()).collect();
+                    probe.sort();
+                }
                 let d = crate::dump::dump_cfg(&cfg, &probe);
-                out.push(json!({"tag": j["tag"], "ok": true, "mapped": d["mapped_keys"],
-                    "acts": d["acts"], "l0": d["layers"][0]["real"], "src": d["src"]}));
+                let mut o = json!({"tag": j["tag"], "ok": true, "mapped": d["mapped_keys"],
+                    "acts": d["acts"], "l0": d["layers"][0]["real"], "src": d["src"]});
+                if full {
+                    o["layers"] = json!(d["layers"]
+                        .as_array()
+                        .map(|a| a.iter().map(|l| l["real"].clone()).collect::<Vec<_>>())
+                        .unwrap_or_default());
+                    o["ovr"] = crate::dump::overrides_json(&cfg);
+                    o["seq"] = d["sequences"].clone();
+                    o["chv2"] = d["chv2"].clone();
+                }
+                out.push(o);
             }
             Err(e) => {
                 let msg = format!("{e:?}");
